@@ -1,6 +1,7 @@
 package hashset
 
 import (
+	"github.com/emirpasic/gods/v2/containers"
 	"github.com/emirpasic/gods/v2/sets"
 	v "github.com/emirpasic/gods/v2/zzvsup"
 )
@@ -24,4 +25,40 @@ func VGSet() (*Set[int], []int) {
 func VHSetStep() {
 	s, pre := VGSet()
 	sets.VSetStep(s, pre, false, func() { v.Assert(s.items != nil, "inv-map-nil") })
+}
+
+func vSetOnly() *Set[int] { s, _ := VGSet(); return s }
+
+// VHAlgebra: set algebra on two arbitrary sets (C13); "alias" makes them the same object.
+func VHAlgebra() {
+	a := vSetOnly()
+	b := a
+	if !v.Bool("alias") {
+		b = vSetOnly()
+	}
+	sets.VAlgStep(sets.VAlg{A: a, B: b, Hash: true,
+		Apply: func(op int) any {
+			switch op {
+			case 0:
+				return a.Intersection(b)
+			case 1:
+				return a.Union(b)
+			}
+			return a.Difference(b)
+		},
+		Values: func(c any) []int { return c.(*Set[int]).Values() },
+		Touch: func(c any, x int) {
+			s := c.(*Set[int])
+			for _, y := range s.Values() {
+				s.Remove(y)
+			}
+			s.Add(x)
+		},
+	})
+}
+
+// VHSnap: returned slices are snapshots, argument slices are copied, GetSortedValues leaves the container alone (C16).
+func VHSnap() {
+	c, _ := VGSet()
+	containers.VSnapStep(containers.VSnap{C: c, Mutate: []func(){c.Clear, func() { c.Add(v.Int("m")) }, func() { c.Remove(v.Int("m")) }}, AddArgs: []func([]int){func(a []int) { c.Add(a...) }}, Hash: true, New: func(a []int) containers.Container[int] { return New(a...) }})
 }
